@@ -637,7 +637,7 @@ func TestVerif(t *testing.T) {
 	r.Set("exhaustive_lattice", fmt.Sprintf("%d blocks: every (DKIM result set, SPF result) combination of each block", len(blocks)))
 	r.Set("exhaustive", true)
 
-	ns := r.N(150, 15000)
+	ns := r.N(400, 15000)
 	for i := 0; i < ns; i++ {
 		r.Run(baseSample+i, fmt.Sprintf("sample-%d", i), func(c *rep.Case) { h.runSample(c, baseSample+i) })
 	}
